@@ -1,8 +1,25 @@
-// commands for cps
+// commands for cps: calls the real `Cps` trait methods of /repo/src/cps.rs
 use crate::*;
+
+use crate::cps::Cps;
+use crate::instrs::{CompProg, Parse};
+
+fn cmd_cps(goal: &str, prog: &str, rad: &str) -> String {
+    let comp = CompProg::from_str(prog);
+    let rad: usize = rad.parse().unwrap();
+    let r = match goal {
+        "halt" => comp.cps_cant_halt(rad),
+        "blank" => comp.cps_cant_blank(rad),
+        "spin" => comp.cps_cant_spin_out(rad),
+        _ => panic!("bad goal"),
+    };
+    b2s(r).to_string()
+}
 
 pub fn dispatch(fields: &[&str]) -> Option<String> {
     match fields {
+        ["cps", goal, prog, rad] => Some(cmd_cps(goal, prog, rad)),
+        // cps1 (one pass of the private fn cps_cant_reach) is model-only
         _ => None,
     }
 }
